@@ -244,6 +244,20 @@ async fn abuild_node(cfg: &Cfg, ctl: &Arc<PendCtl>, scratch: &mut Vec<PathBuf>, 
             }
             wrap(AsyncOverlayFS::new(&paths), ctl)
         }
+        Cfg::OvlShared(inner, n) => {
+            let mut none = None;
+            let r = Box::pin(abuild_node(inner, ctl, scratch, &mut none, false)).await;
+            let mut paths = vec![];
+            for k in 0..*n {
+                let lp = aat(&r, &format!("/__lay{}", k));
+                lp.create_dir_all().await.expect("set-up: create layer base");
+                paths.push(lp);
+            }
+            if through_alt_only && top_views.is_none() {
+                *top_views = Some(paths.clone());
+            }
+            wrap(AsyncOverlayFS::new(&paths), ctl)
+        }
     }
 }
 
@@ -382,6 +396,7 @@ async fn aexec_inner(root: &AsyncVfsPath, op: &Op) -> Res {
         Op::MoveDir(s, d) => verr(aat(root, s).move_dir(&aat(root, d)).await).map(|_| Out::Unit),
         Op::ReadToString(p) => verr(aat(root, p).read_to_string().await).map(Out::Str),
         Op::WalkDir(p) => Ok(Out::Walk(verr(awalk(root, p).await)?)),
+        Op::HoldOpen(..) | Op::Publish(_) => Err(ErrInfo { kind: Kind::Other, path: "<harness>".into(), display: "pseudo-step".into(), panic: None }),
         Op::SetTime(p, f, s, n) => {
             let t = crate::ops::systime(*s, *n);
             let path = aat(root, p);
